@@ -57,6 +57,20 @@ fn c18_all() {
             Err(e) => { println!("WITNESS {} ; source: {:?}", e, src); ok = false; }
         }
     }
+    // normalisation: lines of a paragraph joined by single spaces, paragraphs and @tag clauses separated by newlines (LF and CRLF)
+    for nl in ["\n", "\r\n"].iter() {
+        let doc = format!("/**{nl} * Title é{nl} *{nl} * Details line1{nl} * détails 漢字 🙂{nl} * @param x the arg{nl} */", nl = nl);
+        let src = format!("package p;{nl}{doc}{nl}interface I {{{nl}    {doc}{nl}    void f(int x);{nl}}}{nl}", nl = nl, doc = doc);
+        let want = "Title é\nDetails line1 détails 漢字 🙂\n@param x the arg";
+        n += 1;
+        match doc_of_first_member(&src) {
+            Ok((idoc, mdoc)) => {
+                if idoc.as_deref() != Some(want) { println!("WITNESS item doc = {:?}, expected {:?} (line ending {:?})", idoc, want, nl); ok = false; }
+                if mdoc.as_deref() != Some(want) { println!("WITNESS member doc = {:?}, expected {:?} (line ending {:?})", mdoc, want, nl); ok = false; }
+            }
+            Err(e) => { println!("WITNESS {} ; source: {:?}", e, src); ok = false; }
+        }
+    }
     println!("cases: {}", n);
     assert!(ok, "witness found");
 }
